@@ -45,7 +45,8 @@ class World:
     def __init__(self):
         self.dir = tempfile.mkdtemp(prefix='verif-c16-')
         # a directory name that contains '.gz' but does not end with it
-        self.sub = os.path.join(self.dir, 'release-2024.gz.unpacked')
+        # ... and a dated component, as release folders have (nothing about the PATH may leak into what is loaded)
+        self.sub = os.path.join(self.dir, 'release-2024.gz.unpacked', '2024-01-15', 'v2023-10-09')
         os.makedirs(self.sub)
         self.opened = []
 
@@ -122,8 +123,8 @@ def obo_doc(label, version, extra):
     for i in range(extra):
         nodes.append({'id': P + f'HP_00002{i:02d}', 'lbl': f'{label} {i}', 'type': 'CLASS'})
         edges.append({'sub': P + f'HP_00002{i:02d}', 'pred': 'is_a', 'obj': P + ('HP_0000118' if i % 2 == 0 else 'HP_0000001')})
-    return json.dumps({'graphs': [{'id': 'hp', 'nodes': nodes, 'edges': edges,
-                                   'meta': {'version': P + f'hp/releases/{version}/hp.json'}}]}, ensure_ascii=False)
+    meta = {} if version is None else {'version': P + f'hp/releases/{version}/hp.json'}
+    return json.dumps({'graphs': [{'id': 'hp', 'nodes': nodes, 'edges': edges, 'meta': meta}]}, ensure_ascii=False)
 
 
 def dump_ontology(o):
@@ -200,7 +201,7 @@ def contents():
     the same of it for every source kind"""
     return {
         'json': [('ascii', obo_doc('Phenotypic abnormality', '2024-01-01', 3)), ('non-ascii', obo_doc('Anomalie phénotypique 表現型 😀', '2023-10-09', 5)),
-                 ('ascii-2', obo_doc('Another label', '2022-02-02', 2)), ('bom', '\ufeff' + obo_doc('With BOM é', '2021-01-01', 2)),
+                 ('ascii-2', obo_doc('Another label', '2022-02-02', 2)), ('no-version', obo_doc('Unversioned', None, 2)), ('bom', '\ufeff' + obo_doc('With BOM é', '2021-01-01', 2)),
                  ('odd-separators', obo_doc('L\u2028M\x85N\x0cO\x1cP\u2029Q', '2020-05-05', 2))],
         'hpoa': [('ascii', hpoa_text('DISEASE', 5)), ('non-ascii', hpoa_text('MALADIE é ß 病', 7)), ('ascii-2', hpoa_text('OTHER', 3)),
                  ('bom', '\ufeff' + hpoa_text('BOM é', 4)),
